@@ -5,13 +5,13 @@ import os, sys, json, re, shutil
 V = os.path.dirname(os.path.dirname(os.path.abspath(__file__)))
 roots = sys.argv[1:] or ["/tmp/seed"]
 confirm = {}
-for f in ("/tmp/confirm.log", "/tmp/confirm2.log", "/tmp/confirm3.log", "/tmp/confirm4.log", "/tmp/confirm_ported.log"):
+for f in ("/tmp/confirm.log", "/tmp/confirm2.log", "/tmp/confirm3.log", "/tmp/confirm4.log", "/tmp/confirm5.log", "/tmp/confirm_ported.log"):
     if os.path.exists(f):
         for l in open(f):
             p = l.split()[0]
             confirm[p] = l.strip()[len(p) + 1:]
 detect = {}
-for f in ("build/seed_matrix.log", "build/seed_matrix2.log", "/tmp/r3_first.log", "/tmp/r4_first.log"):
+for f in ("build/seed_matrix.log", "build/seed_matrix2.log", "/tmp/r3_first.log", "/tmp/r4_first.log", "/tmp/r5_first.log"):
     f = os.path.join(V, f)
     if os.path.exists(f):
         for l in open(f):
@@ -20,7 +20,7 @@ for f in ("build/seed_matrix.log", "build/seed_matrix2.log", "/tmp/r3_first.log"
                 detect.setdefault(m.group(1), []).append({"check": m.group(2), "exit": int(m.group(3)), "violation_lines": int(m.group(4)), "summary": m.group(5)})
 n = 0
 for root in roots:
-    rnd = "r4" if root.endswith("4") else "r3" if root.endswith("3") else "r2" if root.endswith("2") else "r1"
+    rnd = "r5" if root.endswith("5") else "r4" if root.endswith("4") else "r3" if root.endswith("3") else "r2" if root.endswith("2") else "r1"
     for pid in sorted(os.listdir(root)):
         for x in ("a", "b"):
             d = os.path.join(root, pid, x)
